@@ -219,6 +219,9 @@ def leaf_boundary_cases(ctx, every=1):
         vals.append((('oid',), ('oid', arcs)))
     for n in range(0, 18):
         vals.append((('bits',), ('bits', tuple((i * 5 + n) % 3 == 0 and 1 or 0 for i in range(n)))))
+    # BIT STRINGs whose leading octets are all zero (a segmented encoding then starts with all-zero segments)
+    for zeros, rest in ((8, (1, 0, 1, 0, 1, 0, 0, 1)), (16, (1,)), (8, ()), (24, ()), (16, (0, 0, 0, 1, 1)), (9, (1, 1))):
+        vals.append((('bits',), ('bits', (0,) * zeros + rest)))
     for n in (0, 1, 126, 127, 128, 129, 255, 256):
         vals.append((('octs',), ('o', bytes((i + n) % 256 for i in range(n)))))
     vals.append((('bool',), ('b', True))); vals.append((('bool',), ('b', False))); vals.append((('null',), ('null',)))
